@@ -95,10 +95,60 @@ def stage(pid, tier, seed, wd, rep):
                 continue
         rep.reject("sio crew leaves the system model (%s) at step %s of %s" % (",".join(sorted(b["system"])), b.get("at"), json.dumps(acts)),
                    b.get("sigs", []), {"property": pid, "kind": "system", "labels": sorted(b["system"]), "at": b.get("at"), "acts": acts})
+    # 5. the crew as siostd runs it (real Loop, Stdio couplings, JSON state file, self-firing timers, restarts from the file):
+    #    only lines and the state file are observed; TLC searches for the silent Fire/Deliver steps
+    io = stdio_stage(pid, tier, seed, wd, drv, rep)
     log("  SioSystem.tla: %d states (system invariants hold; %d shapes refuted as expected); %d model behaviours + %d random runs replayed on the real crew, %d steps, %d rejected"
         % (main_states, len(NEG), len(behs), t["lines"] - len(behs), stats.get("steps", 0), len(bad)))
-    return {"generated": gen + t["generated"], "distinct": dist + t["distinct"], "lines": t["lines"],
-            "stats": {"system." + k: v for k, v in stats.items()}, "behaviours": len(behs)}
+    st = {"system." + k: v for k, v in stats.items()}
+    st.update({"system.stdio." + k: v for k, v in io["stats"].items()})
+    return {"generated": gen + t["generated"] + io["generated"], "distinct": dist + t["distinct"] + io["distinct"], "lines": t["lines"] + io["lines"],
+            "stats": st, "behaviours": len(behs)}
+
+
+STDIO_IN = "30ms"
+
+
+def stdio_stage(pid, tier, seed, wd, drv, rep, acts=None):
+    import concurrent.futures as cf
+    d = os.path.join(wd, "stdio")
+    os.makedirs(d, exist_ok=True)
+    env = dict(os.environ, SYSDRV_IN=STDIO_IN)
+    cfgfile = os.path.join(d, "sysconfig.ndjson")
+    vlib.run([drv, "config", cfgfile], env=env)
+    out = os.path.join(d, "stdio_runs.ndjson")
+    if acts is not None:
+        b = os.path.join(d, "replay_in.ndjson")
+        open(b, "w").write(json.dumps({"acts": acts}) + "\n")
+        vlib.run([drv, "stdio-replay", b, out], env=env, timeout=600)
+    else:
+        n = 240 if tier == "quick" else 4000
+
+        def one(i):
+            o = os.path.join(d, "stdio_%02d.ndjson" % i)
+            vlib.run([drv, "stdio", str(n // 8), str(seed * 100 + i), "12", o], env=env, timeout=6000)
+            return o
+        with cf.ThreadPoolExecutor(max_workers=8) as ex:
+            outs = list(ex.map(one, range(8)))
+        k = 0
+        with open(out, "w") as f:
+            for o in outs:
+                for line in open(o):
+                    k += 1
+                    c = json.loads(line)
+                    c["id"] = k
+                    f.write(json.dumps(c) + "\n")
+    jd = vlib.fresh_dir(pid, "judge_system_io")
+    bad, stats, t = vlib.judge_cases(jd, "Trace_SystemIO.tla", "Trace_SystemIO.cfg", out, extra_files=[cfgfile])
+    for b in bad:
+        c = b["case"]
+        acts2 = json.loads(c["raw"])["acts"]
+        rep.reject("the crew run as siostd runs it is not a behaviour of the system model (stuck at recorded step %s of %s)" % (b.get("at"), json.dumps(acts2)),
+                   b.get("sigs", []), {"property": pid, "kind": "system-stdio", "labels": sorted(b["system"]), "at": b.get("at"), "acts": acts2})
+    log("  siostd-style runs: %d histories (%s submits, %s waits, %s restarts), TLC found silent Fire/Deliver steps for %s, %s not judged (non-deterministic), %d rejected"
+        % (t["lines"], stats.get("submits"), stats.get("waits"), stats.get("restarts"), stats.get("accepted"), stats.get("unjudged"), len(bad)))
+    t["stats"] = stats
+    return t
 
 
 def replay_one(pid, wd, drv, cfgfile, acts, tag):
@@ -117,6 +167,8 @@ def replay_one(pid, wd, drv, cfgfile, acts, tag):
 
 def replay(pid, wd, rep, payload):
     drv = vlib.build_driver("sysdrv", wd)
+    if payload.get("kind") == "system-stdio":
+        return stdio_stage(pid, "quick", 1, wd, drv, rep, acts=payload["acts"])
     cfgfile = os.path.join(wd, "sysconfig.ndjson")
     vlib.run([drv, "config", cfgfile])
     bfile = os.path.join(wd, "behaviours.ndjson")
